@@ -44,6 +44,16 @@ def one(N, m, bx, env, trials, run=None, probe=False, mode="seq"):
             q = np.array(lo_, dtype=float) + (np.array(up_, dtype=float) - np.array(lo_, dtype=float)) * 0.3137
             for j in range(min(trials, 12)):
                 run.solver.evolvent.GetInverseImage(np.array(q))
+                if j == 3:
+                    # a box the caller got wrong (inverted in one coordinate): a version that refuses it keeps its box; one
+                    # that takes it is given the right box again - the later trials stay on the configured grid either way
+                    il, iu = np.array(lo_, dtype=float), np.array(up_, dtype=float)
+                    il[0], iu[0] = iu[0] + 1.0, il[0] - 1.0
+                    try:
+                        run.solver.evolvent.SetBounds(il, iu)
+                        run.solver.evolvent.SetBounds(np.array(lo_, dtype=float), np.array(up_, dtype=float))
+                    except Exception:
+                        pass
                 run.step(1)
                 run.solver.evolvent.GetPreimages(np.array(q))
                 # the same read-only question about the trial just made, asked with the array the library handed out
